@@ -56,3 +56,9 @@ def fill(C, PENDING):
       "types and sampled unit subsets is judged by its stated laws (bracketing, exact end, sign, maximality, requested units); normalize/to_duration "
       "by the integer total.",
       "Trusts the C01 day mapping; Hebrew year rule as documented on the calculator; Badi month arithmetic inside Ayyam-i-Ha only checked for validity.", "§3 C09")
+
+    C("C11", "exploration", "runtime monitoring: tuple model (instant, offset, calendar, zone) compared at the client boundary",
+      "OffsetDateTime/OffsetDate/OffsetTime/ZonedDateTime construction routes, with_offset/with_calendar/adjusters, +/- Duration and differences are executed "
+      "in every calendar for instants chosen around local midnight and range ends, offsets to +-18h and seeded zones, and compared with local = "
+      "instant + offset in integers.",
+      "Trusts the C01 day mapping and the zone's own get_utc_offset (judged by C04/C06).", "§3 C11")
